@@ -65,6 +65,13 @@ def check_batch(ctx, rep, direction, cases):
             rep.violation('built packet differs from the specified ADU', case,
                           finding=classify(n, direction, m, frame, 'build'), impl=frame, spec=a['spec'])
             continue
+        # the same message OBJECT built for two other framings first: the packet is that of the message, whatever was built before
+        warm = [w for w in ('tcp', 'ascii', 'rtu') if w != n][:2]
+        again = framelib.real_build(n, direction, m, u, t, p, warm=warm)
+        if again != frame:
+            rep.violation('a message object that was already built into packets gives a different packet', case,
+                          finding=classify(n, direction, m, again, 'build'), first=frame, later=again, built_before_for=warm)
+            continue
         rdir = 'server' if req else 'client'
         feeds.append({'op': 'feed', 'framer': n, 'dir': rdir, 'units': [u], 'single': n == 'tls', 'chunks': [frame]})
         meta.append((case, frame, nm['norm'], rdir))
